@@ -23,6 +23,7 @@ package main
 //	reopen <i>                 fresh trie on the persistent store ALONE at the i-th saved root -> "ok <pairs>" | missing
 //	prune <version>            pndb.PruneBelowVersion          -> "ok n=<#keys>"
 //	crash-prune <version> <k>  prune with a write budget of k, restart, prune again -> "ok n=<#keys>"
+//	light                      (first op of large histories) no per-operation re-reads after ins/del -> ok
 //	pstore                     -> "ok keys=<k,...> vd=<sha3 of all key||value> dead=<version:k,k;...>"
 //
 // The event stream of an ins/del is the sequence of ChangeCollector calls the trie made, recorded by a decorator
@@ -129,6 +130,7 @@ type storeRun struct {
 	saved    []savedRound
 	pruned   int64 // roots at versions below this are no longer retained
 	roundOps []string
+	light    bool // op `light`: no per-operation frame/view re-reads after ins/del (large histories)
 	sub      bool // replaying a round on a cloned store: no output checks, no nested enumeration
 	fails    []string
 	tags     map[string]bool
@@ -314,7 +316,7 @@ func (s *storeRun) frame(except map[int]bool, mutated int) {
 	for _, id := range ids {
 		t := s.tries[id]
 		now := s.observe(t)
-		if except[id] {
+		if except[id] || t.snap == "" {
 			t.snap = now
 			continue
 		}
@@ -632,6 +634,9 @@ func (s *storeRun) exec(op string) string {
 		return t
 	}
 	switch f[0] {
+	case "light":
+		s.light = true
+		return "ok"
 	case "round":
 		s.version = int64(atoi(f[1]))
 		s.tries = map[int]*trieH{}
@@ -725,9 +730,11 @@ func (s *storeRun) exec(op string) string {
 				s.fail("C03", "failed delete changed the root of trie %d", t.id)
 			}
 		}
-		if !s.sub {
+		if !s.sub && !s.light {
 			s.checkView(t, "after own operation")
 			s.frame(map[int]bool{t.id: true}, t.id)
+		} else {
+			t.snap = ""
 		}
 		return out
 
